@@ -28,7 +28,7 @@ ASSUMPTIONS = ["the oracle is our transcription of the standard, not a second im
 
 
 def gen(r, tier):
-    n = {"quick": 1500, "search": 6000, "thorough": 12000}[tier]
+    n = {"quick": 1200, "search": 5000, "thorough": 8000}[tier]
     cases = []
     for p in g.PRIMS:
         t = ("S", "A", [(0, 0, ("p", "u8")), (1, 0, ("p", p)), (2, 0, ("A", 2, ("p", p)))])
